@@ -2060,3 +2060,105 @@ func c05r13(p *Program, r *Report) {
 		r.Unresolved("readTypeInfo never returns a NativeType")
 	}
 }
+
+// c04r11: SliceMap / MapScan scan every row into the same destinations (RowData.Values) and hand each row out as a map
+// built by (*RowData).rowMap. A slice-valued cell put into the map as it is (or resliced) shares its backing array with
+// the destination, which the next row's Unmarshal overwrites: rows already returned change their content. What rowMap
+// stores for a value whose kind may be Slice is therefore a slice made by reflect.MakeSlice into which the value was
+// copied (reflect.Copy / reflect.AppendSlice), or the result of a helper of the package that does so.
+func c04r11(p *Program, r *Report) {
+	fi := r.NeedFunc("(*RowData).rowMap")
+	if fi == nil {
+		return
+	}
+	info := fi.Pkg.TypesInfo
+	g := p.GraphOf(fi)
+	facts := g.GuardFacts()
+	mp := paramObj(info, fi.Decl.Type, 0)
+	if mp == nil {
+		r.Unresolved("rowMap has no map parameter")
+		return
+	}
+	copies := func(u *FuncInfo) bool {
+		mk, cp := false, false
+		for _, c := range callsIn(u.Decl.Body) {
+			switch calleeName(u.Pkg.TypesInfo, c) {
+			case "reflect.MakeSlice":
+				mk = true
+			case "reflect.Copy", "reflect.AppendSlice":
+				cp = true
+			}
+		}
+		return mk && cp
+	}
+	var root func(e ast.Expr) ast.Expr
+	root = func(e ast.Expr) ast.Expr {
+		e = ast.Unparen(e)
+		if c, isC := e.(*ast.CallExpr); isC {
+			if sel, isSel := ast.Unparen(c.Fun).(*ast.SelectorExpr); isSel {
+				if _, isMethod := info.Selections[sel]; isMethod {
+					return root(sel.X)
+				}
+			}
+		}
+		return e
+	}
+	n := 0
+	inspectNoLit(fi.Decl.Body, func(x ast.Node) bool {
+		as, ok := x.(*ast.AssignStmt)
+		if !ok || len(as.Lhs) != len(as.Rhs) {
+			return true
+		}
+		for i, l := range as.Lhs {
+			ix, isIx := ast.Unparen(l).(*ast.IndexExpr)
+			if !isIx || !isIdentOf(info, ix.X, mp) {
+				continue
+			}
+			n++
+			f, _ := facts.Before(as)
+			notSlice := false
+			for atom, v := range f.m {
+				a := strings.ReplaceAll(atom, " ", "")
+				if !v && (strings.HasSuffix(a, ".Kind()==reflect.Slice") || strings.HasPrefix(a, "reflect.Slice==")) {
+					notSlice = true
+				}
+			}
+			if notSlice {
+				r.OK(as, "(*RowData).rowMap stores a non-slice value as it is", "kind known not to be Slice")
+				continue
+			}
+			rt := root(as.Rhs[i])
+			okCopy := false
+			switch v := rt.(type) {
+			case *ast.Ident:
+				if d := localDef(info, fi, v); d != nil {
+					if dc, isC := ast.Unparen(d).(*ast.CallExpr); isC && calleeName(info, dc) == "reflect.MakeSlice" {
+						// the copy into it comes before the store
+						for _, c := range callsIn(fi.Decl.Body) {
+							cn := calleeName(info, c)
+							if (cn == "reflect.Copy" && len(c.Args) == 2 && isIdentOf(info, c.Args[0], info.Uses[v]) && c.End() <= as.Pos()) {
+								okCopy = true
+							}
+						}
+					}
+					if dc, isC := ast.Unparen(d).(*ast.CallExpr); isC && calleeName(info, dc) == "reflect.AppendSlice" && len(dc.Args) == 2 {
+						if mk, isMk := ast.Unparen(dc.Args[0]).(*ast.CallExpr); isMk && calleeName(info, mk) == "reflect.MakeSlice" {
+							okCopy = true
+						}
+					}
+				}
+			case *ast.CallExpr:
+				if fn := calleeOf(info, v); fn != nil {
+					if h := p.FuncOf(fn); h != nil && h.Decl.Body != nil && copies(h) {
+						okCopy = true
+					}
+				}
+			}
+			r.Check(okCopy, as, "(*RowData).rowMap stores a copy of a slice-valued cell", "reflect.MakeSlice + reflect.Copy before the store", "a value whose kind may be Slice is stored in the row's map without being copied: it shares the backing array of the scan destination, which the next row overwrites, so rows already handed out by SliceMap / MapScan change their content")
+		}
+		return true
+	})
+	if n == 0 {
+		r.Unresolved("rowMap stores nothing into its map")
+	}
+}
